@@ -189,7 +189,7 @@ def layer_string_templates(ctx, n):
                            '<?python\nzp = [1,\n  2]\nzr = 3\n?>\n <i tal:content="zp[0] +\n zr">m</i> '])
         src = lead + '<root>' + tmodel.serialise(root, random.Random(rng.randrange(1 << 30))) + '</root>'
         try:
-            t = PageTemplate(src)
+            t = __import__('vlib.routes').routes.make(PageTemplate, src, 8, __import__('vlib.state').state.CTX)
         except Exception as e:
             ctx.violation('valid-template-rejected', 'template %r: %s' % (src, e), {'src': src})
             continue
